@@ -11,6 +11,7 @@ import (
 	"os"
 	"path"
 	"runtime/debug"
+	"sync"
 	"time"
 
 	"github.com/rs/zerolog/log"
@@ -94,7 +95,14 @@ func newGenerateCommand() *cobra.Command {
 
 // dedup fsnotify events
 func dedupLoop(configArgs map[string]string, w *fsnotify.Watcher, completedChannel chan<- error) {
+	// The debounce timer runs regenerate on a goroutine of its own each time it fires, so a save that arrives
+	// while a regeneration is in progress would otherwise start a second one alongside it, and whichever
+	// finishes last - possibly the one that read the older contents - would determine what is left on disk.
+	// A regeneration that has to wait here reads the package once it gets its turn.
+	var regenerateMutex sync.Mutex
 	regenerate := func() {
+		regenerateMutex.Lock()
+		defer regenerateMutex.Unlock()
 		verifhook.Emit("RegenStart")
 		defer verifhook.Emit("RegenEnd")
 		dirsToWatch := generateInWatchMode(configArgs)
